@@ -72,8 +72,9 @@ pub fn run(ctx: &Ctx, ev: &mut Ev) {
         let mut toks: Vec<Vec<u8>> = TEXT_CHARS.iter().map(|c| c.to_string().into_bytes()).collect();
         for b in BAD_UTF8.iter() { toks.push(b.to_vec()); }
         let idx: Vec<usize> = (0..toks.len()).collect();
-        for seq in strings_over(&idx, if th { 3 } else { 2 }).iter() {
+        for seq in strings_over(&idx, if th { 4 } else { 3 }).iter() {
             if !ev.mine() { continue; }
+            if seq.len() == 4 && (seq[0] * 7 + seq[1] * 5 + seq[2] * 3 + seq[3]) % 4 != (ctx.seed as usize) % 4 { continue; }
             let mut bytes = vec![]; for t in seq { bytes.extend_from_slice(&toks[*t]); }
             let src = Src { bytes, units: vec![] };
             for f in [Utf8ToUtf16, Utf8ToUtf16NoRepl, StrToUtf16, Utf8ToLatin1Lossy, EncodeLatin1Lossy] {
